@@ -69,6 +69,50 @@ def _on_this(e):
     return b.get('k') == 'this'
 
 
+def never_written(prog, qn):
+    """a namespace-scope array that no function of the analysed program stores into, takes the address of or passes on: a look-up
+    table although it is not declared const (cached per program)"""
+    cache = prog.__dict__.setdefault('_never_written', {})
+    if qn not in cache:
+        ok = True
+        for f in prog.functions:
+            if not f.get('body'):
+                continue
+            # addresses of elements that only initialise pointers to const are reads
+            harmless = set()
+            for s_ in walk_stmts(f['body']):
+                if s_.get('k') == 'decl':
+                    for v in s_['vars']:
+                        tv = T(f, v['t'])
+                        if v.get('init') is not None and tv.get('ptr') and T(f, tv.get('to')).get('const'):
+                            i_ = strip(v['init'])
+                            if i_.get('k') == 'un' and i_.get('op') == '&':
+                                harmless.add(id(i_))
+            for e in fn_exprs(f):
+                if id(e) in harmless:
+                    continue
+                tgt = None
+                if e.get('k') == 'bin' and e.get('op', '').endswith('=') and e['op'] not in ('==', '!=', '<=', '>='):
+                    tgt = e['x']
+                elif e.get('k') == 'un' and e.get('op') in ('post++', 'post--', 'pre++', 'pre--', '&'):
+                    tgt = e['e']
+                elif e.get('k') == 'call':
+                    import q as _q
+                    ptypes = _q._sig_params(e.get('sig') or '')
+                    for ai, a in enumerate(e.get('a', []) or []):
+                        a_ = strip(a)
+                        if a_.get('k') == 'var' and a_.get('q') == qn:
+                            pt = ptypes[ai] if ai < len(ptypes) else ''
+                            if not pt.startswith('const '):
+                                ok = False          # handed to a callee that may write through the pointer
+                if tgt is not None and any(w.get('k') == 'var' and w.get('q') == qn for w in walk_expr(tgt)):
+                    ok = False
+            if not ok:
+                break
+        cache[qn] = ok
+    return cache[qn]
+
+
 UNINIT = ('U',)          # a byte of freshly allocated storage nobody has written
 
 
@@ -112,6 +156,89 @@ class Run:
             return b
         return (b, 0)
 
+    def pass_arg(self, v):
+        """an argument value as the callee sees it: the caller's own object becomes a reference to this run's object"""
+        return ('THISOF', self) if isinstance(v, tuple) and v == ('THIS',) else v
+
+    def record_class_has_bodies(self, rec):
+        return any(g.get('body') for g in self.prog.functions if g.get('cls') == rec)
+
+    def call_member(self, e, fn, name, args):
+        """member `fn` of this run's object called with evaluated arguments (from this run or from a callee that was handed
+        the object): a pointer accessor, a stub, or the member's body interpreted on the same members"""
+        if name in self.call_ptrs and not args:
+            return self.call_ptrs[name]
+        m = self.methods.get(name)
+        if m is None and self.methods.get('*') == 'interp':
+            m = 'interp'            # every member of the current object is interpreted from its body
+        if m is None:
+            raise Unsupported('member call `%s`' % pe(e))
+        if callable(m):
+            return m(self, e, args)
+        cands = [g for g in self.prog.fn(fn, e.get('sig')) if g.get('body')]
+        if not cands:
+            raise Unsupported('method %s has no body' % fn)
+        g = cands[0]
+        sub = Run(self.prog, g, self.bufs, depth=self.depth + 1, budget=self.budget, growable=self.growable, mems=self.mems, methods=self.methods, ignore=self.ignore, call_ptrs=self.call_ptrs, externs=self.externs)
+        sub.transparent = self.transparent
+        sub.objects = self.objects
+        sub.ignore_string_members = self.ignore_string_members
+        sub.recs = self.recs
+        self.bind_args(sub, g, fn, args)
+        return sub.run()
+
+    def bind_args(self, sub, g, fn, args):
+        for p_, a in zip(g['params'], args):
+            if self.objects and isinstance(a, tuple) and a[0] == 'P' and isinstance(a[1], tuple) and a[1][0] == 'O' and a[2] == 0 and \
+                    (T(g, p_['t']).get('ref') or T(g, p_['t']).get('rec')):
+                # a modelled object handed to a member by reference: the parameter names the same object
+                self.bufs[('O', p_['id'])] = self.bufs[a[1]]
+                sub.objlen[p_['id']] = self.objlen.get(a[1][1], 0)
+                if a[1][1] in self.strobjs:
+                    sub.strobjs.add(p_['id'])
+                continue
+            sub.vars[p_['id']] = wrap(a, T(g, p_['t']))
+        if len(g['params']) > len(args):
+            # default arguments (the IR carries them on the parameter when they are constants)
+            for p_ in g['params'][len(args):]:
+                if 'def' in p_ and isinstance(p_['def'], dict):
+                    sub.vars[p_['id']] = wrap(sub.val(p_['def']), T(g, p_['t']))
+                else:
+                    raise Unsupported('default argument of %s' % fn)
+
+    def call_record_member(self, recname, e, fn, args, ctor=None):
+        """a member (or constructor) of a small record class run on a modelled record: its fields are the run's members"""
+        cands = [g for g in self.prog.fn(fn, e.get('sig')) if g.get('body')] if ctor is None else [ctor]
+        if not cands:
+            raise Unsupported('member %s of a modelled record has no body' % fn)
+        g = cands[0]
+        if self.depth > 6:
+            raise Unsupported('call depth')
+        sub = Run(self.prog, g, self.bufs, depth=self.depth + 1, budget=self.budget, growable=self.growable, mems=self.recs[recname], methods={'*': 'interp'}, externs=self.externs, objects=True)
+        sub.transparent = self.transparent
+        sub.recs = self.recs
+        sub.self_rec = recname
+        self.bind_args(sub, g, fn, args)
+        r = sub.run()
+        return ('R', recname) if isinstance(r, tuple) and r == ('THIS',) else r
+
+    def new_record(self, cls, ctor_expr=None, copy_of=None):
+        """a fresh modelled record of class cls: constructed by ctor_expr (a 'construct' expression whose constructor has a body),
+        or a field-wise copy of another record"""
+        self._anon = getattr(self, '_anon', 0) + 1
+        name = 'rec%d_%d' % (self._anon, id(self) & 0xfffff)
+        if copy_of is not None:
+            self.recs[name] = dict(self.recs[copy_of])
+            return name
+        self.recs[name] = {}
+        if ctor_expr is not None:
+            ctors = [g for g in self.prog.fn(ctor_expr.get('fn'), ctor_expr.get('sig')) if g.get('body')]
+            if not ctors:
+                raise Unsupported('constructor %s has no body' % ctor_expr.get('fn'))
+            args = [self.pass_arg(self.val(a)) for a in ctor_expr.get('a', [])]
+            self.call_record_member(name, ctor_expr, ctor_expr.get('fn'), args, ctor=ctors[0])
+        return name
+
     def recv_is_this(self, o):
         """the receiver of a call is the current object: this / *this, or a reference parameter bound to it"""
         if _is_this(o):
@@ -119,7 +246,8 @@ class Run:
         o = strip_lv(o)
         while o.get('k') in ('paren', 'cast'):
             o = strip_lv(o['e'])
-        return o.get('k') == 'var' and self.vars.get(o.get('id')) == ('THIS',)
+        rv_ = self.vars.get(o.get('id')) if o.get('k') == 'var' else None
+        return isinstance(rv_, tuple) and (rv_ == ('THIS',) or (rv_[0] == 'THISOF' and rv_[1] is self))
 
     def bind_ref(self, sub, g, p_, a):
         """reference parameter p_ of callee g bound to argument expression a: when a designates an element of a buffer (or a
@@ -156,7 +284,9 @@ class Run:
         """buffer name of a const-qualified namespace-scope / static array with a constant initialiser (look-up table)"""
         qn = e.get('q')
         g = self.prog.globals.get(qn) if qn else None
-        if g is None or not g.get('const'):
+        if g is None:
+            return None
+        if not g.get('const') and not never_written(self.prog, qn):
             return None
         name = ('G', qn)
         if name not in self.bufs:
@@ -612,6 +742,10 @@ class Run:
             return ('THIS',)
         if k in ('temp', 'paren'):
             return self.val(e['e'])
+        if k == 'construct' and self.objects and e.get('cls') in self.prog.records and e.get('cls') not in ('asl::String',) and not (e.get('clsp') or '').startswith('asl::Array') \
+                and self.record_class_has_bodies(e['cls']) and [g for g in self.prog.fn(e.get('fn'), e.get('sig')) if g.get('body')] \
+                and not (len(e.get('a', [])) == 1 and T(self.f, strip_lv(e['a'][0]).get('t')).get('rec') == e['cls']):
+            return ('R', self.new_record(e['cls'], ctor_expr=e))
         if k == 'construct' and len(e.get('a', [])) == 1:
             return self.val(e['a'][0])
         if k == 'un':
@@ -789,7 +923,7 @@ class Run:
         if fn in ('memcpy', 'memmove', 'memset') and not e.get('clsp'):
             dst = self.val(e['a'][0])
             n_ = self.val(e['a'][2])
-            if fn != 'memset' and dst == ('THIS',) and self.objects:
+            if fn != 'memset' and isinstance(dst, tuple) and dst == ('THIS',) and self.objects:
                 src = self.val(e['a'][1])
                 sz = strip(e['a'][2])
                 while sz.get('k') in ('cast', 'paren'):
@@ -1035,6 +1169,17 @@ class Run:
                 self.bufs[('O', oid)][:] = chars + [0]
                 self.objlen[oid] = len(chars)
                 return ('OBJ', oid)
+            if oid in self.strobjs and name == 'fix' and len(e.get('a', [])) == 1:
+                # String::fix(n): the text was written through str(); the length becomes n (the terminator must be there)
+                n_ = self.val(e['a'][0])
+                buf = self.bufs[('O', oid)]
+                if not isinstance(n_, int) or n_ < 0 or n_ >= len(buf):
+                    raise OOB(('O', oid), n_ if isinstance(n_, int) else -1, len(buf), e.get('l'))
+                if buf[n_] != 0:
+                    raise OOB(('O', oid), n_, len(buf), e.get('l'))          # length set past / before the terminator
+                del buf[n_ + 1:]
+                self.objlen[oid] = n_
+                return ('OBJ', oid)
             if oid in self.strobjs and name == 'clear' and not e.get('a'):
                 self.bufs[('O', oid)][:] = [0]
                 self.objlen[oid] = 0
@@ -1108,43 +1253,42 @@ class Run:
                     buf.extend([0] * (n_ - len(buf)))
                 self.objlen[oid] = n_
                 return ('OBJ', oid)
+            if oid in self.strobjs and (e.get('sig') or '').endswith('const') and [g for g in self.prog.fn(fn, e.get('sig')) if g.get('body')] and self.depth < 6:
+                # any other const member of String on a modelled string: interpreted from its body with that string as `this`
+                g = [g for g in self.prog.fn(fn, e.get('sig')) if g.get('body')][0]
+                sp = ('P', ('O', oid), 0)
+                sub = Run(self.prog, g, self.bufs, depth=self.depth + 1, budget=self.budget, growable=self.growable, mems={'_len': len(self.bufs[('O', oid)]) - 1},
+                          methods={'*': 'interp'}, call_ptrs={'str': sp, 'data': sp}, externs=self.externs, objects=True)
+                sub.recs = self.recs
+                sub.strobjs |= self.strobjs
+                self.bind_args(sub, g, fn, [self.pass_arg(self.val(a)) for a in e.get('a', [])])
+                return sub.run()
             raise Unsupported('member call `%s` on a modelled object' % pe(e))
         if e.get('obj') is not None or e.get('clsp'):
+            # whose member is it?  the current object, the object of an outer run handed down as an argument, or a modelled record
+            rv = None
+            if e.get('obj') is not None and not self.recv_is_this(e['obj']):
+                ro = strip_lv(e['obj'])
+                while ro.get('k') in ('paren', 'cast', 'temp'):
+                    ro = strip_lv(ro['e'])
+                if ro.get('k') == 'var':
+                    rv = self.vars.get(ro.get('id'))
+                elif self.objects and ro.get('k') in ('call', 'construct') and T(self.f, ro.get('t')).get('rec') in self.prog.records and self.record_class_has_bodies(T(self.f, ro.get('t')).get('rec')):
+                    rv = self.val(ro)
+            if isinstance(rv, tuple) and rv[0] == 'THISOF' and rv[1] is not self:
+                args = [self.pass_arg(self.val(a)) for a in e.get('a', [])]
+                return rv[1].call_member(e, fn, name, args)
+            if self.objects and isinstance(rv, tuple) and rv[0] == 'R' and rv[1] in self.recs and self.prog.fn(fn, e.get('sig')):
+                args = [self.pass_arg(self.val(a)) for a in e.get('a', [])]
+                return self.call_record_member(rv[1], e, fn, args)
+            if e.get('obj') is None or self.recv_is_this(e['obj']):
+                if name in self.call_ptrs and not e.get('a'):
+                    return self.call_ptrs[name]
+                if self.methods.get(name) is not None or self.methods.get('*') == 'interp':
+                    args = [self.val(a) for a in e.get('a', [])]
+                    return self.call_member(e, fn, name, args)
             if name in self.call_ptrs and not e.get('a'):
                 return self.call_ptrs[name]
-            m = self.methods.get(name)
-            if m is None and self.methods.get('*') == 'interp' and (e.get('obj') is None or self.recv_is_this(e['obj'])):
-                m = 'interp'            # every member of the current object is interpreted from its body
-            if m is not None and (e.get('obj') is None or self.recv_is_this(e['obj'])):
-                args = [self.val(a) for a in e.get('a', [])]
-                if callable(m):
-                    return m(self, e, args)
-                cands = [g for g in self.prog.fn(fn, e.get('sig')) if g.get('body')]
-                if not cands:
-                    raise Unsupported('method %s has no body' % fn)
-                g = cands[0]
-                sub = Run(self.prog, g, self.bufs, depth=self.depth + 1, budget=self.budget, growable=self.growable, mems=self.mems, methods=self.methods, ignore=self.ignore, call_ptrs=self.call_ptrs, externs=self.externs)
-                sub.transparent = self.transparent
-                sub.objects = self.objects
-                sub.ignore_string_members = self.ignore_string_members
-                for p_, a in zip(g['params'], args):
-                    if self.objects and isinstance(a, tuple) and a[0] == 'P' and isinstance(a[1], tuple) and a[1][0] == 'O' and a[2] == 0 and \
-                            (T(g, p_['t']).get('ref') or T(g, p_['t']).get('rec')):
-                        # a modelled object handed to a member by reference: the parameter names the same object
-                        self.bufs[('O', p_['id'])] = self.bufs[a[1]]
-                        sub.objlen[p_['id']] = self.objlen.get(a[1][1], 0)
-                        if a[1][1] in self.strobjs:
-                            sub.strobjs.add(p_['id'])
-                        continue
-                    sub.vars[p_['id']] = wrap(a, T(g, p_['t']))
-                if len(g['params']) > len(args):
-                    # default arguments (the IR carries them on the parameter when they are constants)
-                    for p_ in g['params'][len(args):]:
-                        if 'def' in p_ and isinstance(p_['def'], dict):
-                            sub.vars[p_['id']] = wrap(sub.val(p_['def']), T(g, p_['t']))
-                        else:
-                            raise Unsupported('default argument of %s' % fn)
-                return sub.run()
             raise Unsupported('member call `%s`' % pe(e))
         if self.depth > 4:
             raise Unsupported('call depth')
@@ -1166,7 +1310,7 @@ class Run:
             if self.bind_ref(sub, g, p_, a):
                 continue
             av = self.val(a)
-            if av == ('THIS',):
+            if isinstance(av, tuple) and av == ('THIS',):
                 # the current object handed to a helper (`nextCut(*this, sep, i)`): members called on that parameter are
                 # members of the same object
                 sub.mems, sub.methods, sub.call_ptrs, sub.ignore = self.mems, self.methods, self.call_ptrs, self.ignore
@@ -1250,6 +1394,21 @@ class Run:
                         self.strobjs.add(v['id'])
                     return
             raise Unsupported('local %s of type %s' % (v['n'], tv.get('s')))
+        if self.objects and tv.get('rec') and not tv.get('ref') and not tv.get('ptr') and tv.get('rec') in self.prog.records and self.record_class_has_bodies(tv['rec']) and v.get('init') is not None:
+            # a local of a small record class (an enumerator / cursor): a modelled record, constructed by its own constructor or
+            # copied from the record an expression yields
+            ini = strip(v['init'])
+            while ini.get('k') in ('temp', 'paren', 'cast') or (ini.get('k') == 'construct' and len(ini.get('a', [])) == 1 and T(self.f, strip_lv(ini['a'][0]).get('t')).get('rec') == tv['rec'] and (ini.get('cls') == tv['rec'])):
+                ini = strip(ini['a'][0] if ini.get('k') == 'construct' else ini['e'])
+            if ini.get('k') == 'construct' and ini.get('cls') == tv['rec']:
+                name = self.new_record(tv['rec'], ctor_expr=ini)
+            else:
+                rv = self.val(ini)
+                if not (isinstance(rv, tuple) and rv[0] == 'R' and rv[1] in self.recs):
+                    raise Unsupported('local %s of type %s' % (v['n'], tv.get('s')))
+                name = self.new_record(tv['rec'], copy_of=rv[1])
+            self.vars[v['id']] = ('R', name)
+            return
         if v.get('init') is None:
             if tv.get('int') or tv.get('ptr'):
                 self.vars.pop(v['id'], None)
